@@ -752,6 +752,16 @@ def run(ctx, facts):
         skip_rule(ctx, facts, fid)
         nd += drawseq_rule(ctx, facts, fid)
     ctx.floor("C04 draws inside draw loops", nd, 4)
+    # the densified sketchers finish by copying populated bins into empty ones: which bin an empty bin copies from must be
+    # decided by a probe sequence keyed by the bin alone over the occupancy flags (the rules of C09), or the result depends
+    # on the order of arrival
+    from . import C09 as _C09d
+    for k_ in ("DENS-target", "DENS-source", "PAIR", "BOOKKEEPING", "EMPTY"):
+        ctx.rule(k_, _C09d.RULES[k_])
+    for prefix in (OD, RD):
+        _C09d.dens_rules(ctx, facts, prefix)
+        _C09d.bookkeeping(ctx, facts, prefix)
+        _C09d.empty_guard(ctx, facts, prefix)
     # SetSketch prunes draws against lower_k: a bound above some register makes the registers depend on the order of arrival
     from . import C05 as _C05
     ctx.rule("LOWER", _C05.RULES["LOWER"])
